@@ -38,7 +38,7 @@ LEVEL_TEXT = ("generated-input search over update histories with a reference mod
               "round trip through real files; not exhaustive")
 LEVEL_NOTE = "trusts ruamel.yaml only as part of the code under test; trusts mitmproxy.exceptions"
 QUICK_N, THOROUGH_N = 40_000, 1_500_000
-BUDGET_S = (150, 7200)
+BUDGET_S = (300, 7200)
 
 # name -> (kind, default)
 DECL = {
